@@ -9,7 +9,7 @@ EXPLANATION = (
     "and what flush/gather_and_close raise is one of the injected exceptions (identity tag) - nothing with return_exceptions=True."
 )
 ASSUMPTIONS = ["bounds: <= 2 faults, <= 5 tasks"]
-BUDGET = {"quick": 150, "thorough": 2400}
+BUDGET = {"quick": 150, "thorough": 900}
 MON = ["C12", "C04", "C05", "C02"]
 
 
